@@ -22,7 +22,7 @@ PROPS = {
     'C03': {
         'modules': ['OtterVerif.Props.C03'],
         'engines': [seq(['expiry', 'mix', 'persist', 'load'], 320, 10000,
-                        lambda f: f['dead'] == 1 or 'C03' in f['msg'] or (f['op'] in ITER_OPS and f['class'] == 'events'))],
+                        lambda f: f['dead'] == 1 or 'C03' in f['msg'] or f['op'] in ITER_OPS or f['op'] == 'op_save')],
     },
     'C06': {
         'modules': ['OtterVerif.Props.C06'],
@@ -62,6 +62,23 @@ PROPS = {
         'engines': [seq(['mix', 'load', 'bound'], 300, 10000, lambda f: f['class'] == 'C20')],
     },
 }
+UNIT_TRUST = ["translator /verif/tools/gen (integer leaf code -> Lean BitVec definitions)",
+              "correspondence: in-package white-box harness (go build -overlay) prints the component's exact state digest after every call; the Lean model (otterdrv) must reproduce it",
+              "maphash values are reported by the harness and trusted as inputs of the model"]
+
+
+def unit(name, quick, thorough, chunk=10, args=None):
+    return {'kind': 'unit', 'name': name, 'quick': quick, 'thorough': thorough, 'chunk': chunk, 'args': args or []}
+
+
+PROPS['C18'] = {
+    'modules': ['OtterVerif.Props.C18'],
+    'engines': [unit('sketch', 42, 1400, chunk=3)],
+    'rule': 'UNIT-sketch: random ensureCapacity/increment/frequency sequences (capacities 0..4097 incl. non-powers of two, hot keys to cross saturation and reset) on the real sketch; '
+            'the model must reproduce size and the FNV digest of the whole table after every call; distinct = distinct transcripts with >= 10 lines',
+    'trusted': UNIT_TRUST,
+}
+
 for _p in PROPS.values():
     _p.setdefault('rule', SEQ_RULE)
     _p.setdefault('trusted', SEQ_TRUST)
